@@ -195,8 +195,10 @@ def truth_diff(truth: List[dict], obs: List[dict]) -> Dict[str, str]:
     diff: Dict[str, str] = {}
     for i, (t, o) in enumerate(zip(truth, obs)):
         for k in ("raw", "type", "key", "value", "comment"):
-            if k in t and t[k] != o.get(k):
-                diff.setdefault("blocks" if k == "raw" else "content", f"block {i} ({t['cls']}) {k}={o.get(k)!r} expected {t[k]!r}")
+            ov = o.get(k)
+            # "all up to surrounding whitespace"
+            if k in t and (ov.strip() if isinstance(ov, str) else ov) != t[k].strip():
+                diff.setdefault("raw" if k == "raw" else "content", f"block {i} ({t['cls']}) {k}={o.get(k)!r} expected {t[k]!r}")
         if t["line"] != o["line"]:
             diff.setdefault("start_line", f"block {i} ({t['cls']}) start_line {o['line']} expected {t['line']}")
         if "fields" in t:
